@@ -72,3 +72,12 @@ Theorem C08_other_connection_is_a_gift : forall pc oc c u,
   conn_id pc <> conn_id oc -> slice_proxy pc oc c u = WTheirRef u.
 Proof. exact other_connection_is_a_gift. Qed.
 Print Assumptions C08_other_connection_is_a_gift.
+
+(* "directly or nested inside other data" for gifts: a container holding introduced references (any mixture of gifts whose
+   introduction is already complete and gifts still pending when the container's CLOSE arrives) is handed to the
+   application exactly when every pending introduction has completed -- never with a placeholder in place of a proxy *)
+Theorem C08_container_waits_for_all_gifts : forall inputs j,
+  (j <= npending inputs)%nat ->
+  aa_fired (aand_complete (aand_new asyncand_init inputs) j) = Nat.eqb j (npending inputs).
+Proof. exact container_waits_for_all_gifts. Qed.
+Print Assumptions C08_container_waits_for_all_gifts.
